@@ -1,5 +1,7 @@
 import Tuc.Model.CutStr
 import Tuc.Model.FastLane
+import Tuc.Model.Stream
+import Tuc.Model.Lines
 /-!
 # Driver — line protocol front end of the executable model
 
@@ -149,6 +151,19 @@ def parseRanges (s : String) : List Range :=
       | _, _ => none
     | _ => none
 
+def splitSegsFuel : Nat → Bytes → List Nat → List Bytes
+  | 0, input, _ => if input.isEmpty then [] else [input]
+  | _, [], _ => []
+  | _, input, [] => [input]
+  | fuel + 1, input, l :: ls =>
+    let l := max l 1
+    input.take l :: splitSegsFuel fuel (input.drop l) ls
+
+def splitSegs (input : Bytes) (lens : List Nat) : List Bytes :=
+  splitSegsFuel (input.length + 1) input lens
+
+def parseNats (s : String) : List Nat := (s.splitOn ",").filterMap String.toNat?
+
 def runCut (kv : Kv) : String :=
   match buildOpt kv with
   | .error e => e
@@ -164,6 +179,12 @@ def runCut (kv : Kv) : String :=
       match fastOptOf opt with
       | some fo => renderRun (readAndCutFast fo input)
       | none => "inapplicable"
+    | "stream" =>
+      match streamOptOf opt with
+      | some so => renderRun (cutBytesStream so (splitSegs input (parseNats ((kv.get? "seg").getD ""))))
+      | none => "inapplicable"
+    | "lines" => renderRun (readAndCutLines opt input)
+    | "bytes" => renderRun (readAndCutBytes opt input)
     | "cutstr" =>
       let fields := parseRanges ((kv.get? "sf").getD "")
       let buf := (kv.optBytes "sb").getD []
